@@ -230,6 +230,78 @@ class Cont(Exception):
     pass
 
 
+def _walk_own(fn):
+    """nodes of a function body without nested function / lambda bodies"""
+    stack = list(fn.body)
+    while stack:
+        n = stack.pop()
+        yield n
+        for c in ast.iter_child_nodes(n):
+            if not isinstance(c, (ast.FunctionDef, ast.Lambda, ast.ClassDef)):
+                stack.append(c)
+
+
+class GenObj(object):
+    """lazy generator of the interpreted program: the body runs in its own thread that is handed the baton for exactly one step at a time
+    (strict alternation with the consumer, so interpreter state is never touched concurrently)"""
+
+    def __init__(self, sk, fn, env):
+        import threading
+        self.sk, self.fn, self.env = sk, fn, env
+        self.thread = None
+        self.go = threading.Semaphore(0)
+        self.ready = threading.Semaphore(0)
+        self.item = None
+        self.done = False
+        self.exc = None
+
+    def _run(self):
+        self.go.acquire()
+        try:
+            self.sk.gen_stack.append(self)
+            try:
+                self.sk.block(self.fn.body, self.env)
+            except Ret:
+                pass
+        except BaseException as ex:          # carried over to the consumer
+            self.exc = ex
+        finally:
+            if self.sk.gen_stack and self.sk.gen_stack[-1] is self:
+                self.sk.gen_stack.pop()
+            self.done = True
+            self.ready.release()
+
+    def emit(self, v):
+        self.item = v
+        self.sk.gen_stack.pop()
+        self.ready.release()
+        self.go.acquire()
+        self.sk.gen_stack.append(self)
+
+    def __iter__(self):
+        return self
+
+    def __next__(self):
+        import threading
+        if self.done:
+            raise StopIteration
+        if self.thread is None:
+            try:
+                threading.stack_size(64 * 1024 * 1024)
+            except (ValueError, RuntimeError):
+                pass
+            self.thread = threading.Thread(target=self._run, daemon=True)
+            self.thread.start()
+        self.go.release()
+        self.ready.acquire()
+        if self.exc is not None:
+            ex, self.exc = self.exc, None
+            raise ex
+        if self.done:
+            raise StopIteration
+        return self.item
+
+
 class FnRef(object):
     def __init__(self, fi, bound=None):
         self.fi, self.bound = fi, bound
@@ -338,6 +410,7 @@ class SK(object):
         self.steps = 0
         self.decisions = None       # None: undecidable float comparisons are unsupported; list: replayed / extended fork decisions
         self.trace = []
+        self.gen_stack = []             # generators of the interpreted program that are currently running (innermost last)
         self.construct = False          # a class of the package without a hook is constructed by interpreting its __init__ chain
         self.follow_deepcopy = False    # copy.deepcopy(obj) of a class-keyed object runs the class's own __deepcopy__
         self.generic_eq = 0         # number of ==/!= tests between an abstract float and a number decided by genericity
@@ -717,6 +790,20 @@ class SK(object):
     def e_JoinedStr(self, e, env):
         return ''
 
+    def e_Yield(self, e, env):
+        if not self.gen_stack:
+            raise Unsupported('yield outside an interpreted generator')
+        v = None if e.value is None else self.ev(e.value, env)
+        self.gen_stack[-1].emit(v)
+        return None
+
+    def e_YieldFrom(self, e, env):
+        if not self.gen_stack:
+            raise Unsupported('yield from outside an interpreted generator')
+        for v in self.iterate(self.ev(e.value, env), e):
+            self.gen_stack[-1].emit(v)
+        return None
+
     def iterate(self, v, node):
         if v is None or isinstance(v, Tok):
             raise Violation('SK2', 'iteration over placeholder %r' % (v,), node)
@@ -796,6 +883,9 @@ class SK(object):
             raise Violation('SK2', 'unexpected keyword arguments %s for %s' % (sorted(kw), fi.key))
         if a.vararg:
             env[a.vararg.arg] = tuple(args[len(params):])
+        if any(isinstance(x, (ast.Yield, ast.YieldFrom)) for x in _walk_own(fn)):
+            self.depth -= 1
+            return GenObj(self, fn, env)          # a generator function: its body runs lazily, one `yield` at a time
         try:
             self.block(fn.body, env)
             r = None
@@ -871,7 +961,8 @@ class SK(object):
                 return
             self.bind(n.target, self.arith(self.AUG[type(n.op)], cur, v, n), env)
         elif isinstance(n, ast.For):
-            for item in list(self.iterate(self.ev(n.iter, env), n.iter)):
+            src = self.iterate(self.ev(n.iter, env), n.iter)
+            for item in (src if isinstance(src, GenObj) else list(src)):
                 self.bind(n.target, item, env)
                 try:
                     self.block(n.body, env)
